@@ -171,6 +171,30 @@ Example C20_json_roundtrip_examples :
   dec [34; 92; 117; 100; 56; 48; 48; 34] = None /\ dec [48; 49] = None /\ dec [91; 93; 0; 120] = Some (JsArr _ []).
 Proof. vm_compute. repeat split. Qed.
 
+(* the JSON oracles run over implementation traces accept what the model computes: the round-trip oracle for every value
+   of the data model (same premises as C20_json_roundtrip, float comparison reflexive), the hostile-input oracle always *)
+Theorem C20_oracle_json_accepts_model :
+  forall (js_flt : Type) (js_fprint : js_flt -> list Z) (js_fparse : list Z -> option js_flt) (js_lim : option Z)
+         (js_feqb : js_flt -> js_flt -> bool) (js_fofz : Z -> js_flt),
+  (forall x, js_feqb x x = true) ->
+  (forall x, js_fparse (js_fprint x) = Some x) ->
+  (forall x rest, match rest with [] => True | b :: _ => b = 44 \/ b = 93 \/ b = 125 end ->
+                  js_lex_num (js_fprint x ++ rest) = Some (js_fprint x, false, rest)) ->
+  (forall x, exists b t, js_fprint x = b :: t /\ (b = 45 \/ 48 <= b <= 57) /\ Forall (fun c => 0 <= c < 128) (b :: t)) ->
+  forall v : js_value js_flt,
+  js_wf js_flt v -> js_sorted js_flt v -> js_fits js_flt js_lim 0 v ->
+  js_oracle_rt js_flt js_feqb js_fofz v (js_decode js_flt js_fparse js_lim (js_encode js_flt js_fprint v)) = true.
+Proof. exact js_oracle_rt_accepts_model. Qed.
+Print Assumptions C20_oracle_json_accepts_model.
+
+Theorem C20_oracle_json_hostile_accepts_model :
+  forall (js_flt : Type) (js_fparse : list Z -> option js_flt) (js_lim : option Z)
+         (js_feqb : js_flt -> js_flt -> bool) (js_fofz : Z -> js_flt),
+  (forall x, js_feqb x x = true) ->
+  forall input, js_oracle_dec js_flt js_fparse js_lim js_feqb js_fofz input (js_decode js_flt js_fparse js_lim input) = true.
+Proof. exact js_oracle_dec_accepts_model. Qed.
+Print Assumptions C20_oracle_json_hostile_accepts_model.
+
 (* non-vacuity: two frames (one empty) cut in the middle of a length prefix and of a payload *)
 Example C20_nonvacuous :
   let ps := [[104; 105]; []] in
